@@ -629,6 +629,7 @@ def run_c12(rep):
     import fam_text
     fam_text.initial_passage_family(rep, sizes(rep, 600, 12000))
     fam_text.symlink_start_probe(rep)
+    fam_text.import_lines_probe(rep)
     fam_graph.fixed_graph_probes(rep, "C12")
     text_tie(rep, "c12-text", quick=(200, 200, 150), thorough=(4000, 4000, 3000))
 
